@@ -1002,6 +1002,104 @@ def rule_or_coperm(repo, col):
 # merge
 # --------------------------------------------------------------------------
 
+def _merge_receiver_disjunct(col, f, assigns, disjuncts, node):
+    import itertools
+    rule = 'OR-GUARD'
+
+    class Unknown(Exception):
+        pass
+
+    def md_axis(e):
+        """'S' / 'O' when e reads self's metadata of one axis."""
+        if isinstance(e, ast.Call) and dotted(e.func) == 'self.metadata':
+            a = kwarg(e, 'axis') or (e.args[1] if len(e.args) > 1 else None)
+            if a is None:
+                return 'S'
+            if const_str(a) in ('sample', 'observation'):
+                return 'S' if const_str(a) == 'sample' else 'O'
+        if isinstance(e, ast.Attribute) and dotted(e.value) == 'self':
+            if e.attr == '_sample_metadata':
+                return 'S'
+            if e.attr == '_observation_metadata':
+                return 'O'
+        return None
+
+    def resolve(e, depth=0):
+        if isinstance(e, ast.Name) and e.id in assigns and depth < 5:
+            vals = [v for v, _ in assigns[e.id] if v is not None]
+            if len(vals) == 1 and len(assigns[e.id]) == 1:
+                return resolve(vals[0], depth + 1)
+        return e
+
+    def ev(e, st):
+        e = resolve(e)
+        ax = md_axis(e)
+        if ax:
+            return st[ax]          # 'none' | 'empty' | 'full'
+        if isinstance(e, ast.BoolOp):
+            vals = [truth(v, st) for v in e.values]
+            return all(vals) if isinstance(e.op, ast.And) else any(vals)
+        if isinstance(e, ast.UnaryOp) and isinstance(e.op, ast.Not):
+            return not truth(e.operand, st)
+        if isinstance(e, ast.Compare) and len(e.ops) == 1 and \
+                isinstance(e.ops[0], (ast.Is, ast.IsNot)) and \
+                isinstance(e.comparators[0], ast.Constant) and \
+                e.comparators[0].value is None:
+            v = ev(e.left, st)
+            if v not in ('none', 'empty', 'full'):
+                raise Unknown()
+            return (v == 'none') == isinstance(e.ops[0], ast.Is)
+        raise Unknown()
+
+    def truth(e, st):
+        v = ev(e, st)
+        if v in ('none', 'empty'):
+            return False
+        if v == 'full':
+            return True
+        return bool(v)
+
+    def mentions_self_md(e, depth=0):
+        e = resolve(e)
+        for x in ast.walk(e):
+            if md_axis(x):
+                return True
+            if isinstance(x, ast.Name) and x is not e and depth < 4 and \
+                    x.id in assigns and mentions_self_md(x, depth + 1):
+                return True
+        return False
+
+    for d in disjuncts:
+        if not mentions_self_md(d):
+            continue
+        if any(isinstance(x, ast.Call) and dotted(x.func) and
+               dotted(x.func).startswith('other')
+               for x in ast.walk(resolve(d))):
+            continue
+        try:
+            leaks = []
+            for s_, o_ in itertools.product(('none', 'empty', 'full'),
+                                            repeat=2):
+                if truth(d, {'S': s_, 'O': o_}) and 'full' in (s_, o_):
+                    leaks.append((s_, o_))
+        except Unknown:
+            col.unknown(rule, TABLE, 'Table.merge',
+                        'fast-path-guard:receiver-axes', node,
+                        'receiver-metadata disjunct not evaluable')
+            continue
+        col.check(not leaks, rule, TABLE, 'Table.merge',
+                  'fast-path-guard:receiver-axes', node,
+                  'the receiver-metadata disjunct holds only when the '
+                  'receiver has metadata on neither axis',
+                  'the fast path (which builds the result without metadata) '
+                  'is taken when `%s` holds, which is the case for a '
+                  'receiver with sample metadata %s and observation '
+                  'metadata %s: that metadata is dropped'
+                  % (unparse(resolve(d)),
+                     leaks[0][0] if leaks else '', leaks[0][1] if leaks
+                     else ''))
+
+
 def rule_merge(repo, col):
     """merge: the metadata-dropping fast path is reached only under a guard
     that depends on the metadata of every operand (or on both merge
@@ -1076,6 +1174,11 @@ def rule_merge(repo, col):
                       'receiver without metadata merged with a table that '
                       'has some loses it' % (unparse(badd[0][0])
                                              if badd else ''))
+        # the receiver-only disjunct must at least mean "the receiver has
+        # no metadata on either axis" (three-valued truth table over
+        # None / empty / non-empty for each axis read)
+        if md_guard is not None:
+            _merge_receiver_disjunct(col, f, assigns, md_guard, calls[0])
     # literal <-> helper
     rule = 'AG-MERGEKIND'
     for param in ('sample', 'observation'):
